@@ -1,7 +1,7 @@
 (* Request/response interface of the executable model: one S-expression in,
    one out.  Shared by the extracted runner and the in-Coq path. *)
 From InfluxQL Require Import Base.Prelude Base.Sexp Base.Oracles Lex.Token Lex.Reader Lex.Scanner Ast.Ast Ast.SexpAst
-  Val.Duration Parse.ExprTree Parse.Instr Parse.ParseExpr Parse.ParseStmts Ast.Printer Ast.PrinterStmts Parse.Params Ast.Privileges Ast.ColumnNames Sem.Eval Sem.Reduce Sem.Condition Ast.Clone Ast.GroupBy San.Sanitize.
+  Val.Duration Parse.ExprTree Parse.Instr Parse.ParseExpr Parse.ParseStmts Ast.Printer Ast.PrinterStmts Parse.Params Ast.Privileges Ast.ColumnNames Sem.Eval Sem.Reduce Sem.Condition Ast.Clone Ast.GroupBy San.Sanitize Lex.Quote.
 
 Definition bad_request : sexp := L [A (-1)].
 
@@ -226,6 +226,9 @@ Definition dispatch1 (orc : oracles) (req : sexp) : sexp :=
           | None => bad_request
           end
       | 22%nat, [t] => match sd_text t with Some t' => se_text (sanitize t') | None => bad_request end
+      | 23%nat, [t] => match sd_text t with Some t' => se_text (quote_string t') | None => bad_request end
+      | 24%nat, [segs] => match sd_list sd_text segs with Some l => se_text (quote_ident (o_ulower orc) l) | None => bad_request end
+      | 25%nat, [t] => match sd_text t with Some t' => se_bool (ident_needs_quotes (o_ulower orc) t') | None => bad_request end
       | 12%nat, [e] => match sd_expr e with Some e' => se_text (print_expr orc e') | None => bad_request end
       | _, _ => bad_request
       end
